@@ -1691,6 +1691,9 @@ class WassersteinVectorizer(BaseEstimator, TransformerMixin):
                 else:
                     self.reference_distribution_ = reference_distribution
                     self.reference_vectors_ = reference_vectors
+                    block_size = max(
+                        1, memory_size // (self.reference_vectors_.size * 8)
+                    )
 
                 if self.method == "LOT_exact":
                     self.embedding_, self.components_ = lot_vectors_sparse(
@@ -2390,6 +2393,7 @@ class SinkhornVectorizer(BaseEstimator, TransformerMixin):
             else:
                 self.reference_distribution_ = reference_distribution
                 self.reference_vectors_ = reference_vectors
+                block_size = max(1, memory_size // (self.reference_vectors_.size * 8))
 
             self.embedding_, self.components_ = sinkhorn_vectors_sparse(
                 vectors,
